@@ -1,5 +1,7 @@
 // C19 harness: runs libphysica's helpers on the case file (see checks/C19.py for the case grammar)
 #include "common.hpp"
+#include <algorithm>
+#include <cstring>
 #include "libphysica/List_Manipulations.hpp"
 #include "libphysica/Statistics.hpp"
 #include "libphysica/Utilities.hpp"
@@ -13,6 +15,46 @@ static std::vector<std::vector<int>> itable(vh::Reader& r)
 		t.push_back(toi(r.ilist()));
 	return t;
 }
+static std::vector<std::vector<double>> dtable(vh::Reader& r) { return r.table(); }
+static void put_table(vh::Out& o, const std::vector<std::vector<int>>& t)
+{
+	o.i(t.size());
+	for(auto& row : t)
+		o.il(row);
+}
+static void put_table(vh::Out& o, const std::vector<std::vector<double>>& t)
+{
+	o.i(t.size());
+	for(auto& row : t)
+		o.fl(row);
+}
+// mean, variance, standard deviation, median of one data set (each call on its own copy of the data)
+static void four_stats(vh::Out& o, const std::vector<double>& v)
+{
+	o.f(Arithmetic_Mean(v));
+	o.f(Variance(v));
+	o.f(Standard_Deviation(v));
+	std::vector<double> w = v;
+	o.f(Median(w));
+}
+static bool same_points(const std::vector<DataPoint>& a, const std::vector<DataPoint>& b)
+{
+	if(a.size() != b.size())
+		return false;
+	for(size_t k = 0; k < a.size(); k++)
+		if(std::memcmp(&a[k].value, &b[k].value, sizeof(double)) != 0 || std::memcmp(&a[k].weight, &b[k].weight, sizeof(double)) != 0)
+			return false;
+	return true;
+}
+static void put_wavg(vh::Out& o, std::vector<DataPoint> d)
+{
+	std::vector<DataPoint> before = d;
+	auto res					  = Weighted_Average(d);
+	o.i((long) res.size());
+	o.f(res[0]);
+	o.f(res[1]);
+	o.i(same_points(d, before) ? 1 : 0);   // the data are handed over by non-const reference: they must come back unchanged
+}
 static void handler(vh::Reader& r, vh::Out& o)
 {
 	std::string op = r.word();
@@ -25,6 +67,16 @@ static void handler(vh::Reader& r, vh::Out& o)
 	{
 		long a = r.integer(), b = r.integer(), s = r.integer();
 		o.il(Range(a, b, s));
+	}
+	else if(op == "range1")	  // the one-argument overload
+	{
+		long b = r.integer();
+		o.il(Range(b));
+	}
+	else if(op == "range2")	  // default step
+	{
+		long a = r.integer(), b = r.integer();
+		o.il(Range(a, b));
 	}
 	else if(op == "linspace")
 	{
@@ -104,6 +156,121 @@ static void handler(vh::Reader& r, vh::Out& o)
 		auto res = Weighted_Average(d);
 		o.f(res[0]);
 		o.f(res[1]);
+	}
+	// ---- overloads
+	else if(op == "lists_equal2")	// Lists_Equal on lists of lists
+	{
+		auto a = itable(r), b = itable(r);
+		o.i(Lists_Equal(a, b) ? 1 : 0);
+	}
+	else if(op == "transpose2")	  // Transpose_Lists(v1, v2)
+	{
+		auto a = toi(r.ilist()), b = toi(r.ilist());
+		put_table(o, Transpose_Lists(a, b));
+	}
+	// ---- the list templates instantiated at double (signed zeros, NaN, infinities, subnormals as elements)
+	else if(op == "lists_equal_d")
+	{
+		auto a = r.list(), b = r.list();
+		o.i(Lists_Equal(a, b) ? 1 : 0);
+	}
+	else if(op == "lists_equal2_d")
+	{
+		auto a = dtable(r), b = dtable(r);
+		o.i(Lists_Equal(a, b) ? 1 : 0);
+	}
+	else if(op == "combine_d")
+	{
+		auto a = r.list(), b = r.list();
+		o.fl(Combine_Lists(a, b));
+	}
+	else if(op == "flatten_d")
+		o.fl(Flatten_List(dtable(r)));
+	else if(op == "contains_d")
+	{
+		auto a	 = r.list();
+		double x = r.num();
+		o.i(List_Contains(a, x) ? 1 : 0);
+	}
+	else if(op == "find_indices_d")
+	{
+		auto a	 = r.list();
+		double x = r.num();
+		o.il(Find_Indices(a, x));
+	}
+	else if(op == "sub_list_d")
+	{
+		auto a	= r.list();
+		long i1 = r.integer(), i2 = r.integer();
+		o.fl(Sub_List(a, (int) i1, (unsigned int) i2));
+	}
+	else if(op == "transpose_d")
+		put_table(o, Transpose_Lists(dtable(r)));
+	else if(op == "transpose2_d")
+	{
+		auto a = r.list(), b = r.list();
+		put_table(o, Transpose_Lists(a, b));
+	}
+	// ---- one vector object through two calls of Median (it reorders its argument), then the vector itself
+	else if(op == "median2")
+	{
+		auto l	  = r.list();
+		double m1 = Median(l);
+		double m2 = Median(l);
+		o.f(m1);
+		o.f(m2);
+		std::sort(l.begin(), l.end());
+		o.fl(l);
+	}
+	// ---- data points built from the value only (default weight)
+	else if(op == "wavg1")
+	{
+		auto l = r.list();
+		std::vector<DataPoint> d;
+		for(double v : l)
+			d.push_back(DataPoint(v));
+		put_wavg(o, d);
+	}
+	// ---- laws: the statistics of the data, of p * data, of data + t and of the data rotated by k, in one process
+	else if(op == "laws")
+	{
+		auto x	 = r.list();
+		double p = r.num(), t = r.num();
+		long k = r.integer();
+		std::vector<double> y, z, w = x;
+		for(double v : x)
+		{
+			y.push_back(p * v);
+			z.push_back(v + t);
+		}
+		std::rotate(w.begin(), w.begin() + k, w.end());
+		four_stats(o, x);
+		four_stats(o, y);
+		four_stats(o, z);
+		four_stats(o, w);
+	}
+	else if(op == "wlaws")
+	{
+		long n = r.integer();
+		std::vector<DataPoint> d, dv, dw;
+		for(long j = 0; j < n; j++)
+		{
+			double v = r.num(), w = r.num();
+			d.push_back(DataPoint(v, w));
+		}
+		double p = r.num(), q = r.num();
+		long k = r.integer();
+		for(auto& e : d)
+		{
+			dv.push_back(DataPoint(p * e.value, e.weight));
+			dw.push_back(DataPoint(e.value, q * e.weight));
+		}
+		std::vector<DataPoint> dr = d;
+		std::rotate(dr.begin(), dr.begin() + k, dr.end());
+		put_wavg(o, d);
+		put_wavg(o, dv);
+		put_wavg(o, dw);
+		put_wavg(o, dr);
 	}
 	else
 		o.w("HARNESSERR unknown_op");
